@@ -6,7 +6,7 @@ STRUCT_WEIGHTS = {
     "create_block": 2, "create_group": 3, "create_array": 4, "create_tag": 3, "create_mtag": 2,
     "create_feature": 2, "create_source": 3, "create_section": 4, "append_dim": 3,
     "set_attr": 10, "set_dim": 3, "link_append": 6, "link_remove": 3, "set_metadata": 3,
-    "del_metadata": 1, "set_role": 2, "delete": 4, "link_dim": 2, "delete_dims": 0.5,
+    "del_metadata": 1, "set_role": 2, "delete": 4, "link_dim": 2, "delete_dims": 0.5, "unlink_dim": 1,
     "restart": 3, "create_property": 3, "prop_values": 3, "sec_dict": 1, "set_odml": 0.5,
     "create_frame": 1.5,
 }
@@ -126,7 +126,7 @@ class C05(Profile):
     name = "C05"
     weights = {"create_block": 2, "create_group": 4, "create_array": 5, "create_tag": 3, "create_mtag": 3,
                "create_feature": 3, "create_source": 4, "create_section": 3, "create_property": 2,
-               "append_dim": 4, "link_dim": 5, "set_dim": 5, "link_append": 12, "link_remove": 3,
+               "append_dim": 4, "link_dim": 5, "set_dim": 5, "unlink_dim": 3, "link_append": 12, "link_remove": 3,
                "set_metadata": 5, "set_role": 4, "set_attr": 14, "observe": 4, "restart": 2,
                "data_write": 5, "refused_link": 8}
     owned = ("alias_view", "lookup_failed", "lookup_wrong_entity", "refused_changed_list")
